@@ -65,13 +65,13 @@ ApplyPRightTransTriSem(A, P) == TriSwaps(A, P, 0)
 EqualSem(A, B) == IF Eq(A, B) THEN 1 ELSE 0
 \* three-way comparison: dimensions first, then rows in ascending order, each row compared as the
 \* number whose bit c has weight 2^c (this is a total order, hence antisymmetric and transitive)
-RowLess(a, b) == a # b /\ Max(Xor(a, b)) \in b
+RowLess(a, b) == a # b /\ SetMax(Xor(a, b)) \in b
 CmpSem(A, B) ==
   IF A.m < B.m THEN -1 ELSE IF B.m < A.m THEN 1
   ELSE IF A.n < B.n THEN -1 ELSE IF B.n < A.n THEN 1
   ELSE LET D == {i \in Rows(A) : A.r[i] # B.r[i]} IN
        IF D = {} THEN 0
-       ELSE LET i == Min(D) IN IF RowLess(A.r[i], B.r[i]) THEN -1 ELSE 1
+       ELSE LET i == SetMin(D) IN IF RowLess(A.r[i], B.r[i]) THEN -1 ELSE 1
 IsZeroSem(A) == IF IsZero(A) THEN 1 ELSE 0
 \* pivot search (relational): failure iff the region is zero, otherwise any row holding a one in
 \* the left-most non-zero column of the region
@@ -79,8 +79,8 @@ Region(A, sr, sc) == {<<i, c>> \in (sr .. A.m - 1) \X (sc .. A.n - 1) : c \in A.
 FindPivotOK(A, sr, sc, ret, r, c) ==
   LET cols == UNION {{x \in A.r[i] : x >= sc} : i \in sr .. A.m - 1} IN
   IF cols = {} THEN ret = 0
-  ELSE ret = 1 /\ c = Min(cols) /\ r >= sr /\ r < A.m /\ c \in A.r[r]
-FirstZeroRowSem(A) == LET nz == {i \in Rows(A) : A.r[i] # {}} IN IF nz = {} THEN 0 ELSE Max(nz) + 1
+  ELSE ret = 1 /\ c = SetMin(cols) /\ r >= sr /\ r < A.m /\ c \in A.r[r]
+FirstZeroRowSem(A) == LET nz == {i \in Rows(A) : A.r[i] # {}} IN IF nz = {} THEN 0 ELSE SetMax(nz) + 1
 PopCount(A) == FoldSet(LAMBDA i, acc : acc + Cardinality(A.r[i]), 0, Rows(A))
 
 \* ---- C02 echelon forms --------------------------------------------------------
